@@ -80,3 +80,16 @@ def run(tier, seed):
                        "Takeuchi start vectors at r0 >= 0.1 x core radius are excluded here: known finding of C04",
                        "tolerances calibrated on the unchanged tree: 5e-6 (+5e-5 RK23 at rtol 1e-7, +1.5e-5 doubled grid)"]
     return ck.finish()
+
+
+def replay(path):
+    import json
+    from .. import solver_obs as so
+    d = json.load(open(path))
+    print(d["desc"][:3000])
+    r = d.get("replay") or {}
+    rep = r.get("rep") if isinstance(r, dict) and "rep" in r else (r if isinstance(r, dict) and "prob" in r else None)
+    if rep:
+        out = so.run_reps([dict(rep)], nproc=1)[0]
+        print(json.dumps({k: out.get(k) for k in ("status", "love", "tight_shift", "msg")}, indent=1)[:3000])
+    return 1
